@@ -58,7 +58,10 @@ class Source(LenaSequence):
             )
 
         if len(args) > 1:
-            self._tail = Sequence(*(self._data_seq[1:]))
+            # static context elements are kept in the tail: without them
+            # its initialisation would set the static context
+            # of the other elements anew as if they were absent.
+            self._tail = Sequence(*(el for el in args if el is not first))
         else:
             self._tail = ()
 
